@@ -94,7 +94,8 @@ def run_case(case) -> Result:
             if CREDS[kw["creds"]]["v"] != top["creds"]["v"]:
                 classes.add("family_switch")
             new["creds"] = CREDS[kw["creds"]]
-            new.pop("disco_done", None)      # other credentials: the message layer may be a new one
+            for k in ("baseline_disco", "after_block", "last_disco"):
+                new.pop(k, None)             # other credentials: the message layer may be a new one
         if "ctx" in kw:
             new["ctx"] = tuple(kw["ctx"])
         return new
@@ -159,13 +160,15 @@ def run_case(case) -> Result:
             elif rec["who"] != top["creds"]["community"].encode():
                 return "%s: community %r on the wire, the credentials in force are %s" % (where, rec["who"], top["creds"])
         if version == 3:
-            # "behaves exactly as before entering": a configuration level that has already talked to the engine does not
-            # discover it again after an inner block was left (the agent never restarts in these histories)
-            if top.get("disco_done") and any(r.get("disco") for r in seen):
+            # "behaves exactly as before entering": if the request issued just BEFORE the block was entered needed no discovery,
+            # the first request after the block is left needs none either (the agent never restarts in these histories).  An
+            # implementation that discovers the engine before every request is as conformant as one that never repeats it.
+            had_disco = any(r.get("disco") for r in seen)
+            if top.pop("after_block", False) and top.get("baseline_disco") is False and had_disco:
                 classes.add("rediscovery_after_block")
-                return "%s: the engine was discovered AGAIN (%d datagrams for one %s) although this configuration level had already " \
-                       "talked to it before the inner block(s) were entered" % (where, len(seen), kind)
-            top["disco_done"] = True
+                return "%s: the engine was discovered AGAIN after the inner block was left (%d datagrams for one %s); the same " \
+                       "request just before the block was entered needed no discovery" % (where, len(seen), kind)
+            top["last_disco"] = had_disco
         return None
 
     def result(msg):
@@ -191,6 +194,16 @@ def run_case(case) -> Result:
         elif kind == "enter":
             if len(cms) >= 4:
                 continue
+            if model[-1]["creds"]["v"] == "3":
+                # baseline: how does a request behave at this level right now?  (at most two: the very first one discovers)
+                model[-1].pop("after_block", None)
+                for _ in range(2):
+                    msg = do_request("get", where + " (baseline before the block)")
+                    if msg:
+                        return result(msg)
+                    if not model[-1].get("last_disco"):
+                        break
+                model[-1]["baseline_disco"] = bool(model[-1].get("last_disco"))
             try:
                 cm = client.reconfigure(**kwargs(step[1]))
                 cm.__enter__()
@@ -206,6 +219,8 @@ def run_case(case) -> Result:
                 continue
             cm = cms.pop()
             model.pop()
+            if "baseline_disco" in model[-1]:
+                model[-1]["after_block"] = True
             if step[1] == "exception":
                 classes.add("exceptional_exit")
                 interesting = True
